@@ -8,6 +8,8 @@ import (
 	"fmt"
 	"math"
 	"math/rand"
+	"net"
+	"net/url"
 	"reflect"
 	"sort"
 	"strconv"
@@ -34,6 +36,11 @@ var envTable = map[string]string{
 	"C17_BIG":   "99999999999999999999",
 	"C17_EMPTY": "",
 	"C17_300":   "300",
+	// values that contain placeholder text themselves (ResolveCustomTags substitutes tag by tag on the string built so far)
+	"C17_RE1":    "${env:C17_STR}",
+	"C17_RE2":    "x${C17_INT}y",
+	"C17_RE3":    "${env:C17_RE3}",
+	"C17_DOLLAR": "a$b${",
 }
 
 // the keys of the standard properties file and their values
@@ -361,6 +368,7 @@ type gcase struct {
 }
 
 type walker struct {
+	dupPath   map[string]bool // field paths whose key is shared by two fields of the struct (both are decoded from it)
 	root      string
 	rootType  reflect.Type
 	maxPlugin int
@@ -466,9 +474,19 @@ func (w *walker) walkStruct(path string, t reflect.Type, def reflect.Value, wrap
 			}
 		}
 	}
+	keyCount := map[string]int{}
+	for _, f := range fields {
+		keyCount[strings.ToLower(f.key)]++
+	}
 	for _, f := range fields {
 		f := f
 		fpath := path + "/" + f.key
+		if keyCount[strings.ToLower(f.key)] > 1 {
+			if w.dupPath == nil {
+				w.dupPath = map[string]bool{}
+			}
+			w.dupPath[fpath] = true
+		}
 		set := func(v any) any {
 			m := cloneMap(base)
 			m[f.key] = v
@@ -499,9 +517,25 @@ func (w *walker) walkField(fpath string, f flatField, set func(any) any, at stri
 		return
 	}
 	if isSpecial(ft) {
-		w.add(gcase{kind: "mistyped", path: fpath, at: "-", exp: "reject", cfg: set([]any{1})})
+		if ft == ipType {
+			w.add(gcase{kind: "mistyped", path: fpath, at: "-", exp: "reject", cfg: set(map[string]any{"a": 1})}) // a list of numbers is a []byte
+		} else {
+			w.add(gcase{kind: "mistyped", path: fpath, at: "-", exp: "reject", cfg: set([]any{1})})
+		}
 		if isSize(ft) {
 			w.sizeCases(fpath, tags, set)
+		}
+		// text types parsed by a hook of core/config (url, ip, data size) or by the type itself (zap level): a text that is
+		// clearly no value of the type is an error, a clearly valid one is accepted (the model predicts neither)
+		good, bad := libTexts(ft, tags)
+		if w.dupPath[fpath] {
+			good = nil // json / jsonlines aggregators: `buffer-size` also feeds an int field, a size text cannot satisfy both
+		}
+		for _, g := range good {
+			w.add(gcase{kind: "libtype", path: fpath + "#valid", at: "-", exp: "accept", cfg: set(g)})
+		}
+		for _, b := range bad {
+			w.add(gcase{kind: "libtype", path: fpath + "#invalid", at: "-", exp: "reject", cfg: set(b)})
 		}
 		return
 	}
@@ -567,6 +601,13 @@ func (w *walker) scalarCases(fpath string, f flatField, fk string, tags []string
 	_, isEq := hasTag(tags, "eq")
 	_, isPath := hasTag(tags, "url-path")
 	base := strings.SplitN(fk, ":", 2)[0]
+	if w.dupPath[fpath] {
+		// the key feeds two fields of different types (json / jsonlines aggregators: buffer-size is an int AND a data size):
+		// only what is wrong for both
+		w.add(gcase{kind: "mistyped", path: fpath, at: "-", exp: "reject", cfg: set([]any{"x"})})
+		w.add(gcase{kind: "ph-unset", path: fpath, at: "-", fk: fk, exp: "reject", cfg: set(ph("env", "C17_UNSET")), uses: true})
+		return
+	}
 	w.consCases(fpath, f, fk, tags, set, at)
 	// mistyped
 	var bad any
@@ -717,6 +758,15 @@ func (w *walker) scalarCases(fpath string, f flatField, fk string, tags []string
 				cfg: set("[${env:C17_STR}: ${C17_INT}-" + ph("property", "str") + "]"), uses: true})
 			w.add(gcase{kind: "ph-unset", path: fpath + "#second", at: "-", fk: fk, exp: "reject", cfg: set("${env:C17_STR}-${env:C17_UNSET}"), uses: true})
 			w.add(gcase{kind: "ph-empty", path: fpath, at: at, fk: fk, exp: "value", want: tstr("xy"), cfg: set("x${env:C17_EMPTY}y"), uses: true})
+			if w.root == "synth" {
+				// a resolved value that contains the text of another placeholder of the same string: no demand, the outcome
+				// (a later tag's text is substituted again, an earlier one's is not) is compared with the model
+				for _, t := range []string{"${env:C17_RE1}|${env:C17_STR}", "${env:C17_STR}|${env:C17_RE1}", "${env:C17_RE1}${env:C17_RE1}-${env:C17_STR}",
+					"${env:C17_RE2}+${C17_INT}", "${C17_INT}+${env:C17_RE2}", "${env:C17_RE3}/${env:C17_STR}", "${env:C17_DOLLAR}{env:C17_STR}${env:C17_STR}",
+					"${env:C17_RE1}", " ${env:C17_RE1} ${env:C17_RE2} ${env:C17_STR}${C17_INT}"} {
+					w.add(gcase{kind: "ph-resub", path: fpath, at: "-", fk: fk, exp: "none", cfg: set(t), uses: true})
+				}
+			}
 		}
 	case "uint":
 		// the confirmed defect: -1 into an unsigned field
@@ -748,6 +798,27 @@ var urlPaths = []string{"/a", "/a/b", "/~user/:x@y;z=1", "/%41", "/a.b-c_d", "/1
 	"/a?x", "/a#", "/ü", "/a\n", "/a/b/", "/{x}", "/a|b"}
 
 func isSize(t reflect.Type) bool { return t == sizeType }
+
+func libTexts(t reflect.Type, tags []string) (good, bad []any) {
+	switch {
+	case t == sizeType:
+		good = []any{"10KB", "2048"}
+		if len(tags) > 0 {
+			good = []any{"10KB"} // inside the bounds of the synthetic field
+		}
+		bad = []any{"12XB", "abc", "KB", true}
+	case t == urlType || (t.Kind() == reflect.Ptr && t.Elem() == urlType):
+		good = []any{"http://example.org/path?q=1", "https://127.0.0.1:8080/"}
+		bad = []any{"not a url", "http//example", 5}
+	case t == ipType:
+		good = []any{"192.168.1.1", "::1"}
+		bad = []any{"999.1.1.1", "abc", "1.2.3", 5}
+	case t.String() == "zapcore.Level":
+		good = []any{"debug", "warn", "error"}
+		bad = []any{"loud", "de bug", 1.5}
+	}
+	return
+}
 
 func tagsTerm(tags []string) string {
 	var xs []string
@@ -858,6 +929,7 @@ func (w *walker) walkPlugin(fpath string, iface reflect.Type, set func(any) any,
 	w.add(gcase{kind: "plugin-notype", path: fpath, at: "-", exp: "reject", cfg: set(map[string]any{"zz": 1})})
 	w.add(gcase{kind: "plugin-badname", path: fpath, at: "-", exp: "reject", cfg: set(map[string]any{"type": "no-such-plugin"})})
 	w.add(gcase{kind: "plugin-nonstring", path: fpath, at: "-", exp: "reject", cfg: set(map[string]any{"type": 5})})
+	w.add(gcase{kind: "plugin-badname", path: fpath + "#empty", at: "-", exp: "reject", cfg: set(map[string]any{"type": ""})})
 	if bp, ok := basePlugin(iface).(map[string]any); ok {
 		// the `type` key in another letter case is the type key; two of them are one too many
 		up := map[string]any{}
@@ -938,6 +1010,9 @@ type synthConfig struct {
 	Emb  synthEmb            `config:",squash"`
 	// one field without constraints per kind (generated placeholder values land here)
 	// one field per validation of core/config/validations.go that no registered component uses
+	Link    url.URL           `config:"link"`
+	LinkP   *url.URL          `config:"link-p"`
+	IP      net.IP            `config:"ip"`
 	MaxWait time.Duration     `config:"max-wait" validate:"max-time=3h"`
 	Window  time.Duration     `config:"window" validate:"min-time=1s,max-time=1m"`
 	Addr    string            `config:"addr" validate:"endpoint"`
